@@ -13,7 +13,8 @@ from mc.common import Stats
 A_VALUES = [b'', b'x', b'xyz']
 L_VALUES = [0, 2, 7]
 OPS = [('set_a', v) for v in A_VALUES] + [('set_len', v) for v in L_VALUES] + [('del_len',), ('pack',), ('unpack', b'\x02ab')]
-INITS = [('new', {}), ('new', {'a': b'ab'}), ('new', {'length': 5}), ('new', {'length': 1, 'a': b'abc'}), ('unpack', b'\x01x'), ('unpack', b'\x00')]
+INITS = [('new', {}), ('new', {'a': b'ab'}), ('new', {'length': 5}), ('new', {'length': 1, 'a': b'abc'}), ('new', {'length': 0, 'a': b'ab'}),
+         ('unpack', b'\x01x'), ('unpack', b'\x00')]
 
 KINDS = {
     'autolength': (["length = Int(1).describe(AutoLength('a'))", 'a = Data(length)'], None),
